@@ -11,11 +11,13 @@
   -- `rehello_replyLost_desync`, `helloLost_blocks_registration`; known findings), the part that
   -- holds is `synced_partial` (every history of completed / write-failed exchanges, re-keys,
   -- server-side drops and re-registrations).
-  -- OPEN: channel (full duplex) mode and proxy/multi-device packets are not modelled.
+  -- OPEN: channel (full duplex) mode: see the block "Per-connection key handling" at the end (false with a
+  -- re-key inside the channel; proved without one); proxy / multi-device containers are not modelled.
 -/
 import XMT.KeysToy
 import XMT.KeysPickWait
 import XMT.RelaySplice
+import XMT.KeysConnToy
 namespace XMT.Props.C06
 open XMT XMT.Keys
 
@@ -353,5 +355,232 @@ theorem relay_nest_delivers (key devA devB : Bytes) (ps : List Packet.Packet) (h
     (hz : devB.head? ≠ some 0) (hpay : (RelaySplice.elems ps).length ≤ Facts.maxSlice) :
     RelaySplice.relay RelaySplice.nestInto key devA devB (RelaySplice.container devB ps) = .ok ps :=
   RelaySplice.nest_relay key devA devB ps hps hne hl hd hz hpay
+
+
+/-! ## Per-connection key handling (extension): `conn.keys`, `Listener.resolve`, `handle`, channels
+
+Model: XMT/KeysConn.lean (`Conn`, `listenerResolve`, `talkConn`, `pollUses`, `chanStep`), lemmas in
+XMT/KeysConnLemmas.lean, toy-curve witnesses in XMT/KeysConnToy.lean.  A `KeyUse` records, for one
+packet, the share handed to the sender's `KeyCrypt` (`enc`), the share handed to the receiver's
+(`dec`), the buffer before and after; `Agree` = same share and the buffer restored.
+
+  -- OPEN: "every packet of a channel is decrypted with the key it was encrypted with, for every
+  -- sequence of channel events" is FALSE on this code as soon as a re-key is announced inside the
+  -- channel (`chan_rekey_desync`, known finding chan:payload-after-rekey); proved part:
+  -- `chan_no_rekey_agree`, `chan_rekey_partial`, and a channel opened BY the re-key poll starts on
+  -- one key (`chan_open_rekey_good`; repaired defect chan:opened-by-rekey, `chan_opened_by_rekey_desync`
+  -- shows what happened without the renewal).
+  -- OPEN: a reply that carries packets of tagged devices (c.add non-empty: a Multi|MultiDevice
+  -- container that `handle` encrypts a second time as a whole) and MultiDevice requests
+  -- (`processMultiple`) are not modelled; tags that resolve to nothing are (`poll_tagged_key_agree`).
+-/
+
+/-- **(b) Every conn built by `Listener.resolve` carries the Session's key** — on the path without
+Tags and on the path with Tags (whatever the tags resolve to, also when the tag loop fails with
+`ErrMalformedTag`), and names that Session as its host. -/
+theorem resolve_conn_carries_session_key (hs : List Host) (s : Host) (tags : List Nat) :
+    (listenerResolve hs s tags).1.keys = s.keys ∧ (listenerResolve hs s tags).1.host = s.id :=
+  listenerResolve_keys hs s tags
+
+/-- Tie of (b) to the source (regenerated fact): `(*Listener).resolve` contains two `conn` literals
+and BOTH initialise `keys` with `s.keys`; no statement of the function assigns `keys` otherwise. -/
+theorem resolve_literals_copy_session_key : Facts.c06ResolveConnKeys = ["s.keys", "s.keys"] := by decide
+
+/-- The conn that served the opening poll is the conn of the channel; its key copy is renewed from the
+Session at the top of `(*conn).start` (regenerated fact: an assignment to a `keys` field in `handle` /
+`(*conn).start`; repaired defect `chan:opened-by-rekey`).  The channel model of the code is
+`chanOpen _ Facts.c06ConnStartRefresh`. -/
+theorem conn_start_renews_copy : Facts.c06ConnStartRefresh = true := by decide
+
+/-- **(a) In a poll the reply is encrypted with the key the client decrypts it with — for every
+history** of connects, data polls, re-key polls, failed writes, server-side drops and
+re-registrations (no lost reply): every `KeyCrypt` pair of the history, requests and replies, the
+re-key poll included, used one share on both sides and restored the buffer. -/
+theorem poll_key_agree (c : Curve) (hc : c.WF) (b : Bytes) (hb : b.length = privSize)
+    (evs : List Ev) (hev : ∀ e ∈ evs, e.Sized ∧ e.NoLoss) :
+    ∀ u ∈ histUses c false (init c b) evs, u.enc = u.dec ∧ u.got = u.sent :=
+  histUses_agree c hc evs (init c b) hev (init_inv c hc b hb)
+
+/-- …and the same for a poll whose request carries Tags (any list; tags that name no Session are
+legal and skipped): both `KeyCrypt` pairs agree whenever the two ends held the same secret before. -/
+theorem poll_tagged_key_agree (c : Curve) (tags : List Nat) (cl : Client) (srv : Server) (sk : KeyPair)
+    (send : Send) (reply : Bytes) (f : Fault) (hs : srv.sess = some sk) (hk : cl.keys.share = sk.share) :
+    ∀ u ∈ pollUses c false tags cl srv send reply f, u.enc = u.dec ∧ u.got = u.sent :=
+  pollUses_agree c tags cl srv sk send reply f hs hk
+
+/-- The explicit-conn poll IS the poll of the history machine (`Keys.talk`, registered arm). -/
+theorem talkConn_is_talk (c : Curve) (srv : Server) (sk : KeyPair) (hs : srv.sess = some sk) (w : Pkt)
+    (reply : Bytes) :
+    ∃ t, talkConn c false [] sk w reply = some t ∧
+      talk c srv w reply = ({ srv with sess := some t.1 }, some t.2.1, t.2.2.1) :=
+  talkConn_talk c srv sk hs w reply
+
+/-- **The conn-local copy is needed (guard-needed).**  In the re-key poll of a synchronised pair the
+Session's live key after `talk` is the NEW secret while the client decrypts the reply BEFORE it
+swaps: the code (`live = false`) encrypts the reply with the conn's copy = the client's key; the
+variant that uses the live Session key (`live = true`) encrypts it with `copyInto old v`, which
+equals the client's key only if the new secret happens to reproduce the old array. -/
+theorem poll_reply_live_key_breaks (c : Curve) (live : Bool) (tags : List Nat) (cl : Client) (sk : KeyPair)
+    (a v reply : Bytes) (hk : sk.pub.length = pubSize) (hpl : (c.pubOf a).length = pubSize)
+    (hv : c.dh sk.priv (c.pubOf a) = some v) (hz : KeyPair.zero.fill c a = ⟨c.pubOf a, a, zeros shareSize⟩)
+    (hn : cl.next = none) (hh : cl.hello = none) (hsh : cl.keys.share = sk.share)
+    (t : KeyPair × Pkt × Option Bytes × Conn)
+    (ht : talkConn c live tags sk ((clientNext c cl (.rekey a)).1.encryptedWith cl.keys.share) reply = some t) :
+    t.1.share = copyInto sk.share v ∧ t.2.2.2.keys.share = cl.keys.share ∧
+    t.2.1.payload = xorOp reply (if live then copyInto sk.share v else cl.keys.share) := by
+  have e : (clientNext c cl (.rekey a)).1.encryptedWith cl.keys.share
+      = { id := .data, crypt := true, payload := xorOp (c.pubOf a) sk.share } := by
+    simp [clientNext, hn, hh, hz, Pkt.encryptedWith, hsh]
+  rw [e] at ht
+  have := talkConn_rekey c live tags sk (c.pubOf a) v reply hk hpl hv t ht
+  rw [hsh]; exact this
+
+set_option maxRecDepth 100000 in
+/-- …on a kernel-checked witness (toy curve, reply `[1,2,3]`): with the conn copy both pairs of the
+re-key poll agree — also with Tags —; with the live key the reply does not decrypt; a zero tag makes
+`resolve` fail before anything is decrypted. -/
+theorem poll_reply_live_key_breaks_witness :
+    pollWitness false [] [1, 2, 3] = some [true, true] ∧
+    pollWitness true [] [1, 2, 3] = some [true, false] ∧
+    pollWitness false [77, 5] [1, 2, 3] = some [true, true] ∧
+    pollWitness false [77, 0] [1, 2, 3] = some [] := by
+  refine ⟨?_, ?_, ?_, ?_⟩ <;> decide
+
+/-- **(c) A channel without a re-key keeps every packet on one key**: from a channel opened by a poll
+of a synchronised pair, for EVERY interleaving of client writes (data / keep-alive), server reads,
+server writes, client reads and failed writes, every `KeyCrypt` pair — both directions, packets in
+flight included — used the same share on both sides and restored the buffer. -/
+theorem chan_no_rekey_agree (c : Curve) (s : Chan) (hs : ChanGood s) (evs : List ChanEv)
+    (hev : ∀ e ∈ evs, e.NoRekey) :
+    ∀ u ∈ (chanRun c s evs).uses, u.enc = u.dec ∧ u.got = u.sent :=
+  (chanRun_inv c s.sess.share evs s hev hs.inv).uses
+
+/-- A channel opened by a DATA poll of a synchronised pair is `ChanGood` (hypothesis of (c)). -/
+theorem chan_open_good (c : Curve) (refresh : Bool) (cl : Client) (sk : KeyPair) (p reply : Bytes)
+    (hn : cl.next = none) (hh : cl.hello = none) (hsh : cl.keys.share = sk.share) :
+    ∃ s, chanOpen c refresh cl sk (.data p) reply = some s ∧ ChanGood s := by
+  rw [chanOpen_eq]
+  refine ⟨_, rfl, ?_⟩
+  cases refresh <;>
+    simp [ChanGood, clientNext, hh, hn, checkSync, talkBody, updateIfCrypt, hsh, Pkt.encryptedWith]
+
+set_option maxRecDepth 100000 in
+/-- **(d) A re-key inside a running channel — the negation, kernel-checked** (known finding
+`chan:payload-after-rekey`).  Channel opened by a data poll (it is `ChanGood`), then: the client
+announces a re-key, the server reads it, the server sends `[1,2,3]`, the client reads it, the client
+sends `[4,5,6]`, the server reads it.  Afterwards the two SESSIONS agree on the new secret, the conn's
+copy does not; the announcement itself was decrypted with the key it was encrypted with, the two
+payloads after it were not.  Second witness: a server packet IN FLIGHT while the client swaps is lost
+even though the server has not even read the announcement (conn copy = Session key): using the live
+Session key on the server would not repair it. -/
+theorem chan_rekey_desync :
+    chanWitness false (.data []) [.cSend (.rekey wB) false, .sRecv, .sSend [1, 2, 3] false, .cRecv,
+      .cSend (.data [4, 5, 6]) false, .sRecv] = some (true, true, false, [true, false, false]) ∧
+    chanWitness false (.data []) [.sSend [1, 2, 3] false, .cSend (.rekey wB) false, .cRecv]
+      = some (true, false, true, [false]) := by
+  refine ⟨?_, ?_⟩ <;> decide
+
+/-- **A channel opened BY the re-key poll starts on one key** (the repaired code, `refresh = true`):
+the client's next packet is a re-key announcement and `SetChannel(true)` was called, so the
+announcement carries the Channel flag; the reply still uses the old key (`poll_key_agree`), both
+Sessions swap, and the conn renews its copy from the Session before the channel runs: the channel is
+`ChanGood` — hypothesis of `chan_no_rekey_agree` — on the NEW secret. -/
+theorem chan_open_rekey_good (c : Curve) (cl : Client) (sk : KeyPair) (a v reply : Bytes)
+    (hk : sk.pub.length = pubSize) (hpl : (c.pubOf a).length = pubSize)
+    (hv : c.dh sk.priv (c.pubOf a) = some v) (hv2 : c.dh a cl.keys.pub = some v)
+    (hal : cl.keys.priv.length = a.length)
+    (hz : KeyPair.zero.fill c a = ⟨c.pubOf a, a, zeros shareSize⟩)
+    (hn : cl.next = none) (hh : cl.hello = none) (hsh : cl.keys.share = sk.share) :
+    ∃ s, chanOpen c true cl sk (.rekey a) reply = some s ∧ ChanGood s ∧
+      s.sess.share = copyInto sk.share v := by
+  have h0 : (c.pubOf a).length ≠ 0 := by rw [hpl]; exact pubSize_pos
+  have hfp := fillPrivate_some c cl.keys a v hv2 hal
+  rw [chanOpen_eq]
+  refine ⟨_, rfl, ?_, ?_⟩
+  · simp [ChanGood, clientNext, hh, hn, hz, checkSync, hfp, talkBody, updateIfCrypt, hsh,
+      xorOp_involutive, h0, regenerate_pub c sk (c.pubOf a) v hk hpl hv, Pkt.encryptedWith]
+  · simp [clientNext, hh, hn, hz, talkBody, updateIfCrypt, hsh,
+      xorOp_involutive, h0, regenerate_pub c sk (c.pubOf a) v hk hpl hv, Pkt.encryptedWith]
+
+set_option maxRecDepth 100000 in
+/-- **…and the renewal is needed (guard-needed; repaired defect `chan:opened-by-rekey`)**, on a
+kernel-checked witness: without it (`refresh = false`, the code before the repair) the channel opened
+by the re-key poll runs on the conn built before `keyCryptAndUpdate`: it is NOT `ChanGood`, both
+Sessions agree, and every packet of the channel, in both directions, is decrypted with a key it was
+not encrypted with; with the renewal the same run agrees throughout. -/
+theorem chan_opened_by_rekey_desync :
+    chanWitness false (.rekey wB) [.sSend [1, 2, 3] false, .cRecv, .cSend (.data [4, 5, 6]) false, .sRecv]
+      = some (false, true, false, [false, false]) ∧
+    chanWitness true (.rekey wB) [.sSend [1, 2, 3] false, .cRecv, .cSend (.data [4, 5, 6]) false, .sRecv]
+      = some (true, true, true, [true, true]) := by
+  refine ⟨?_, ?_⟩ <;> decide
+
+/-- **The part of the channel statement that holds with a re-key** (`_partial`): up to and including
+the server's receipt of the announcement.  From a `ChanGood` channel, after any events without a
+re-key, the client's write of ANYTHING (a re-key announcement included — the client swaps only after
+the write), followed by server reads only: every `KeyCrypt` pair agrees.  What is excluded — any
+client read or later client write after the swap, any server write after the announcement — is
+exactly what `chan_rekey_desync` shows to fail. -/
+theorem chan_rekey_partial (c : Curve) (s : Chan) (hs : ChanGood s) (pre post : List ChanEv)
+    (send : Send) (fail : Bool) (hpre : ∀ e ∈ pre, e.NoRekey) (hpost : ∀ e ∈ post, e.IsSRecv) :
+    ∀ u ∈ (chanRun c s (pre ++ [.cSend send fail] ++ post)).uses, u.enc = u.dec ∧ u.got = u.sent := by
+  rw [chanRun_append, chanRun_append]
+  have h1 := chanRun_inv c s.sess.share pre s hpre hs.inv
+  have h2 := chanStep_cSend_invS c s.sess.share (chanRun c s pre) send fail h1
+  exact (chanRun_sRecv_invS c s.sess.share post _ hpost h2).uses
+
+/-! ### The copy of the secret into the fixed array (`fillShared`) -/
+
+/-- **Both ends compute the same 65-byte array for every secret length** (0, shorter than the array,
+exactly 65, the 66 bytes of half of all P-521 points — cut to 65 —, anything longer) whenever they
+start from the same contents, and their arrays keep the array's length. -/
+theorem share_copy_agree (prev v : Bytes) (k1 k2 : KeyPair) (c1 c2 : Curve) (n1 m1 n2 m2 : Bytes)
+    (h1 : c1.dh m1 n1 = some v) (h2 : c2.dh m2 n2 = some v) (hp1 : k1.share = prev) (hp2 : k2.share = prev) :
+    (k1.fillShared c1 n1 m1).1.share = (k2.fillShared c2 n2 m2).1.share ∧
+    (k1.fillShared c1 n1 m1).1.share.length = prev.length := by
+  rw [fillShared_some c1 k1 n1 m1 v h1, fillShared_some c2 k2 n2 m2 v h2, hp1, hp2]
+  exact ⟨rfl, by simp⟩
+
+/-- **…and the exact condition under which they do not**: from different previous contents (equal
+length) the two arrays are equal iff the parts beyond the secret's length were equal — `copy` does not
+clear the tail; a secret at least as long as the array hides every difference. -/
+theorem share_copy_differs_iff (c1 c2 : Curve) (k1 k2 : KeyPair) (n1 m1 n2 m2 v : Bytes)
+    (h1 : c1.dh m1 n1 = some v) (h2 : c2.dh m2 n2 = some v) (hl : k1.share.length = k2.share.length) :
+    ((k1.fillShared c1 n1 m1).1.share = (k2.fillShared c2 n2 m2).1.share ↔
+      k1.share.drop v.length = k2.share.drop v.length) ∧
+    (k1.share.length ≤ v.length → (k1.fillShared c1 n1 m1).1.share = (k2.fillShared c2 n2 m2).1.share) := by
+  refine ⟨fillShared_agree_iff c1 c2 k1 k2 n1 m1 n2 m2 v h1 h2 hl, fun hle => ?_⟩
+  rw [fillShared_agree_iff c1 c2 k1 k2 n1 m1 n2 m2 v h1 h2 hl,
+    List.drop_eq_nil_of_le hle, List.drop_eq_nil_of_le (hl ▸ hle)]
+
+/-- Non-vacuity of the tail condition: a 2-byte secret over arrays that differ only in the stale
+tail (derive-in-place over an old secret vs derive into a fresh zero array) — the arrays differ; with
+equal tails, or a secret that covers the array, they agree. -/
+example : copyInto [9, 9, 9, 7] [1, 2] ≠ copyInto [0, 0, 0, 0] [1, 2] ∧
+    copyInto [9, 9, 0, 0] [1, 2] = copyInto [0, 0, 0, 0] [1, 2] ∧
+    copyInto [9, 9, 9, 7] [1, 2, 3, 4, 5] = copyInto [0, 0, 0, 0] [1, 2, 3, 4, 5] := by decide
+/-- Non-vacuity of (b): a conn built with Tags — one unknown, one naming a Session with a packet
+queued, a duplicate — carries the host's key; the tagged packet is encrypted with the TAGGED
+Session's key. -/
+example :
+    let h : Host := { id := 1, keys := ⟨[], [], [7, 7]⟩ }
+    let t : Host := { id := 5, keys := ⟨[], [], [1, 2]⟩, queue := some [16, 16, 16] }
+    (listenerResolve [h, t] h [9, 5, 5]).1 =
+      { host := 1, keys := ⟨[], [], [7, 7]⟩, add := [(5, [17, 18, 17])], subs := [(5, true)] } ∧
+    (listenerResolve [h, t] h [5, 0]).2.2 = false ∧ (listenerResolve [h, t] h [5, 0]).1.keys = h.keys := by
+  decide
+set_option maxRecDepth 100000 in
+/-- Non-vacuity of (c): the toy channel opened by a data poll is `ChanGood`, and a run without a
+re-key has uses to talk about (3 of them, all agreeing). -/
+example : chanWitness false (.data []) [.sSend [1, 2, 3] false, .cSend (.data [4]) false, .cRecv, .sRecv,
+    .cSend (.data []) false, .sRecv] = some (true, true, true, [true, true, true]) := by decide
+set_option maxRecDepth 100000 in
+/-- Non-vacuity of (a): a history with a re-key poll has six `KeyCrypt` pairs (request and reply of
+three polls), and the hypotheses of `poll_key_agree` hold of it. -/
+example : (∀ e ∈ [Ev.connect kA [9] .ok, xData, .xchg (.rekey kB) [7, 7] kC .ok, xData], e.Sized ∧ e.NoLoss) := by
+  decide
+set_option maxRecDepth 100000 in
+example : (histUses toy false (init toy kS) [.connect kA [9] .ok, xData, .xchg (.rekey kB) [7, 7] kC .ok, xData]).length = 6 := by
+  decide
 
 end XMT.Props.C06
